@@ -146,8 +146,11 @@ def c03(m, run):
                 if orders:
                     for order in range(0, p + 3):
                         def post(sk, out, order=order, p=p):
-                            if len(out) < min(order, p) + 1:
-                                raise Violation('SK3', 'derivative table has %d rows' % len(out))
+                            if len(out) != order + 1:
+                                raise Violation('SK3', 'derivative table has %d rows for order %d: the k-th derivatives, k <= order, are read as rows 0..order (zero rows above the degree)' % (len(out), order))
+                            for k, row in enumerate(out):
+                                if not (isinstance(row, list) and len(row) == p + 1 and all(isinstance(c, Tok) and c.kind in ('DEF', 'PH0') for c in row)):
+                                    raise Violation('SK3', 'row %d of the derivative table is not %d defined values' % (k, p + 1))
                         t.add((p, span, order), run1(m, 'helpers.' + fname, [p, kv, span, DEF(), order], {}, post))
                 else:
                     t.add((p, span), run1(m, 'helpers.' + fname, [p, kv, span, DEF()], {}))
